@@ -175,8 +175,8 @@ Qed.
 
 (** ** Recovery: from ANY parser state the style's handler + clean-up restores the terminal *)
 
-Lemma tail_cases anim lines : old_anim_tail anim lines = [] \/ old_anim_tail anim lines = [TCud lines].
-Proof. destruct anim; auto. Qed.
+Lemma tail_cases anim lines : old_anim_tail anim lines = [] \/ exists n, old_anim_tail anim lines = [TCud n].
+Proof. unfold old_anim_tail, cud. destruct anim; auto. destruct (0 <? lines - 1); eauto. Qed.
 
 (** kitty: ST ST + end-of-chunks, whatever the state *)
 Lemma recover_kitty t anim lines :
@@ -184,7 +184,7 @@ Lemma recover_kitty t anim lines :
 Proof.
   unfold term_clean, handler, old_final.
   destruct t as [r c0 a v sy p pe lg].
-  destruct (tail_cases anim lines) as [-> | ->]; destruct p; cbn; auto.
+  destruct (tail_cases anim lines) as [-> | [n ->]]; destruct p; cbn; auto.
 Qed.
 
 (** iterm2: ST ST, whatever the parser state, when no kitty transmission is pending *)
@@ -193,7 +193,7 @@ Lemma recover_iterm t anim lines : pending t = None ->
 Proof.
   intros Hp. unfold term_clean, handler, old_final.
   destruct t as [r c0 a v sy p pe lg]. simpl in Hp. subst pe.
-  destruct (tail_cases anim lines) as [-> | ->]; destruct p; cbn; auto.
+  destruct (tail_cases anim lines) as [-> | [n ->]]; destruct p; cbn; auto.
 Qed.
 
 (** block (no handler): the next escape sequence aborts a cut CSI *)
@@ -253,15 +253,24 @@ Lemma plain_ok s x : plain_tok x = true -> tok_ok s x = true.
 Proof. destruct s; simpl; intros H; try rewrite H; reflexivity. Qed.
 
 (** every write of a draw() of [frames_ok] frames consists of the style's tokens *)
+Lemma old_ctop_ok s lines : forallb (tok_ok s) (old_ctop lines) = true.
+Proof.
+  unfold old_ctop, cuu. destruct (0 <? lines - 1); simpl;
+    rewrite ?(plain_ok s TCR eq_refl), ?(plain_ok s (TCuu (lines - 1)) eq_refl); reflexivity.
+Qed.
+
 Lemma old_writes_ok s anim lines frames : frames_ok s frames = true ->
   forallb (forallb (tok_ok s)) (old_writes anim lines frames) = true.
 Proof.
   intros H. unfold old_writes. simpl. rewrite (plain_ok s THide eq_refl). simpl.
-  destruct frames as [|F0 Fs]; [reflexivity|]. unfold frames_ok in H. simpl in H.
-  apply andb_true_iff in H. destruct H as [H0 Hs].
-  destruct anim; simpl; rewrite H0; simpl; [|reflexivity].
-  induction Fs as [|F Fs IH]; [reflexivity|]. simpl in Hs. apply andb_true_iff in Hs. destruct Hs as [HF Hs].
-  simpl. rewrite (plain_ok s TCR eq_refl), (plain_ok s (TCuu (lines - 1)) eq_refl), HF. simpl. apply IH. assumption.
+  destruct frames as [|F0 Fs]; [reflexivity|]. unfold frames_ok in H.
+  destruct anim.
+  - assert (A : forall l, forallb (forallb (tok_ok s)) l = true ->
+               forallb (forallb (tok_ok s)) (flat_map (fun F => [F; old_ctop lines]) l) = true).
+    { induction l as [|F l IH]; intros Hl; [reflexivity|]. simpl in Hl. apply andb_true_iff in Hl. destruct Hl as [HF Hs].
+      cbn [flat_map app forallb]. rewrite HF, old_ctop_ok. cbn [andb]. apply IH. assumption. }
+    apply (A (F0 :: Fs)). assumption.
+  - simpl in H. apply andb_true_iff in H. destruct H as [H0 _]. simpl. rewrite H0. reflexivity.
 Qed.
 
 Lemma concat_ok {A} (p : A -> bool) ls : forallb (forallb p) ls = true -> forallb p (concat ls) = true.
@@ -303,7 +312,7 @@ Proof.
     { apply exec_safe_cutw; [|assumption]. apply nth_ok. assumption. }
     unfold old_recovery. destruct s; simpl in S2.
     + destruct S2 as [H1 H2]. simpl handler. rewrite app_nil_l.
-      apply recover_plain; [assumption|assumption|]. destruct anim; simpl; eauto.
+      apply recover_plain; [assumption|assumption|]. apply tail_cases.
     + apply recover_kitty.
     + apply recover_iterm. assumption.
 Qed.
@@ -565,8 +574,12 @@ Definition iframe : list tok := [TIterm 4 2 false 77 77].
 Example iterm_cut_state :
   parser (exec 0 origin ([THide] ++ cutw iframe 0 (Some CutOsc))) = InStr.
 Proof. vm_compute. reflexivity. Qed.
+(** the second frame of an animation (writes: HIDE, F0, "\r" CUU, F1, ...) cut inside its OSC *)
+Example iterm_anim_cut_state :
+  parser (exec 0 origin (concat (firstn 3 (old_writes true 2 [iframe; iframe])) ++ cutw iframe 0 (Some CutOsc))) = InStr.
+Proof. vm_compute. reflexivity. Qed.
 Example iterm_cut_recovers :
-  term_clean (exec 0 origin (old_interrupted SIterm true 2 [iframe; iframe] 4 0 (Some CutOsc))).
+  term_clean (exec 0 origin (old_interrupted SIterm true 2 [iframe; iframe] 3 0 (Some CutOsc))).
 Proof. vm_compute. repeat split. Qed.
 
 Definition bframe : list tok := [TBg (0, 10, 20); TChar GSpace; TChar GSpace; TSgr0; TLF; TBg (0, 10, 20); TChar GSpace; TChar GSpace; TSgr0].
@@ -584,6 +597,23 @@ Example block_cut_recovers :
 Proof. vm_compute. repeat split. Qed.
 Example block_frame_ok : frames_ok SBlock [bframe] = true /\ frames_ok SIterm [iframe] = true.
 Proof. vm_compute. auto. Qed.
+
+(** a cut inside the CUU of the trailing "\r" + cursor_up(lines - 1) write of a frame (kitty,
+    3-line box): an open CSI, closed by the handler's ST *)
+Example ctop_cut_state :
+  let ws := old_writes true 3 [kframe; kframe] in
+  nth 2 ws [] = [TCR; TCuu 2] /\
+  parser (exec 0 origin (concat (firstn 2 ws) ++ cutw (nth 2 ws []) 1 (Some CutCsi))) = InCsi.
+Proof. vm_compute. split; reflexivity. Qed.
+Example ctop_cut_recovers :
+  term_clean (exec 0 origin (old_interrupted SKitty true 3 [kframe; kframe] 2 1 (Some CutCsi))) /\
+  term_clean (exec 0 origin (old_interrupted SBlock true 3 [bframe; bframe] 2 1 (Some CutCsi))).
+Proof. vm_compute. repeat split. Qed.
+(** a one-line box: no cursor_up after a frame, no cursor_down in the clean-up *)
+Example one_line_box :
+  old_interrupted SBlock true 1 [[TChar GSpace]; [TChar GSpace]] 3 0 None
+  = [THide; TChar GSpace; TCR] ++ old_final.
+Proof. vm_compute. reflexivity. Qed.
 
 (** new API: a text frame cut inside its SGR sequence, handler = ST CSI 0 m *)
 Definition tframe : list tok := [TFg (10, 20, 30); TChar (GOther 48); TChar (GOther 48); TSgr0; TLF; TFg (10, 20, 30); TChar (GOther 48); TChar (GOther 48); TSgr0].
